@@ -430,3 +430,183 @@ def z3(prog):
     if n < 1:
         raise Broken("no hex field output found in the dumpers (anchor vanished)")
     return inst, uniq
+
+
+# ---------------------------------------------------------------------------
+# X1: operand decoding of location expression operations covers DWARF 5
+
+# Frozen from DWARF 5 section 7.7.1 (table 7.9) plus the GNU extensions libdw decodes.
+# value: (number of operand values dwgrep should expose, first signed?, second signed?).
+# Operations whose operand is "size + block" expose the block / nested expression as ONE value.
+OP_TABLE = {}
+for _n in ("addr", "const1u", "const2u", "const4u", "const8u", "constu", "pick", "plus_uconst", "regx", "piece",
+           "deref_size", "xderef_size", "call2", "call4", "call_ref", "addrx", "constx", "convert", "reinterpret",
+           "GNU_convert", "GNU_reinterpret", "GNU_parameter_ref", "GNU_addr_index", "GNU_const_index",
+           "GNU_variable_value"):
+    OP_TABLE["DW_OP_" + _n] = (1, False, False)
+for _n in ("const1s", "const2s", "const4s", "const8s", "consts", "fbreg", "skip", "bra"):
+    OP_TABLE["DW_OP_" + _n] = (1, True, False)
+for _i in range(32):
+    OP_TABLE["DW_OP_breg%d" % _i] = (1, True, False)
+    OP_TABLE["DW_OP_reg%d" % _i] = (0, False, False)
+    OP_TABLE["DW_OP_lit%d" % _i] = (0, False, False)
+for _n in ("implicit_value", "entry_value", "GNU_entry_value"):
+    OP_TABLE["DW_OP_" + _n] = (1, None, None)        # block / nested expression
+OP_TABLE["DW_OP_bregx"] = (2, False, True)
+for _n in ("bit_piece", "regval_type", "deref_type", "xderef_type", "GNU_regval_type", "GNU_deref_type"):
+    OP_TABLE["DW_OP_" + _n] = (2, False, False)
+for _n in ("implicit_pointer", "GNU_implicit_pointer"):
+    OP_TABLE["DW_OP_" + _n] = (2, None, True)         # DIE + signed offset
+for _n in ("const_type", "GNU_const_type"):
+    OP_TABLE["DW_OP_" + _n] = (2, None, None)         # DIE + block
+for _n in ("deref", "dup", "drop", "over", "swap", "rot", "xderef", "abs", "and", "div", "minus", "mod", "mul", "neg",
+           "not", "or", "plus", "shl", "shr", "shra", "xor", "eq", "ge", "gt", "le", "lt", "ne", "nop",
+           "push_object_address", "form_tls_address", "call_frame_cfa", "stack_value", "GNU_push_tls_address",
+           "GNU_uninit"):
+    OP_TABLE["DW_OP_" + _n] = (0, False, False)
+OP_NO_SUMMARY = {"DW_OP_GNU_encoded_addr": "libdw does not decode its operands", "DW_OP_lo_user": "range marker",
+                 "DW_OP_hi_user": "range marker"}
+
+
+def dw_op_enum(prog):
+    for e in prog.enums.values():
+        if e["file"] == "/usr/include/dwarf.h" and any(c["n"] == "DW_OP_addr" for c in e["consts"]):
+            return {c["n"]: c["v"] for c in e["consts"]}
+    raise Broken("DW_OP_* enumeration of the system dwarf.h not found")
+
+
+def x1(prog):
+    inst, findings = [], []
+    fs = [f for f in prog.funcs.values() if f["q"].startswith("(anonymous namespace)::locexpr_op_values<")]
+    if len(fs) != 2:
+        raise Broken("expected the two instantiations locexpr_op_values<0>/<1>, found %d" % len(fs))
+    f = sorted(fs, key=lambda x: x["q"])[0]
+    sw = [x for x in walk_nolambda(f["body"]) if x.get("k") == "switch"]
+    if len(sw) != 1:
+        raise Broken("locexpr_op_values no longer dispatches with one switch (unmodelled shape)")
+    lambdas = {}
+    for x in walk_nolambda(f["body"]):
+        if x.get("k") == "decl":
+            for v in x["vars"]:
+                if isinstance(unwrap(v.get("init")), dict) and unwrap(v["init"]).get("k") == "lambda":
+                    lambdas[v["id"]] = v["n"]
+
+    def is_null_prod(e):
+        e = unwrap(e)
+        while isinstance(e, dict) and e.get("k") == "ctor" and len(e["a"]) == 1:
+            e = unwrap(e["a"][0])
+        return isinstance(e, dict) and e.get("k") == "call" and e.get("f", "").startswith("std::make_unique<") and "null_producer" in e["f"]
+
+    def is_signed(e):
+        e = unwrap(e)
+        if isinstance(e, dict) and e.get("k") == "call" and e.get("op") == "()" and isinstance(unwrap(e["a"][0]), dict) \
+           and lambdas.get(unwrap(e["a"][0]).get("id")) == "signed_cst":
+            return True
+        if isinstance(e, dict) and e.get("k") in ("ctor", "ilist"):
+            return False
+        return None
+
+    def classify(ret):
+        e = unwrap(ret)
+        while isinstance(e, dict) and e.get("k") == "ctor" and len(e["a"]) == 1:
+            e = unwrap(e["a"][0])
+        if is_null_prod(e):
+            return (0, None, None)
+        if isinstance(e, dict) and e.get("k") == "call" and e.get("op") == "()":
+            nm = lambdas.get(unwrap(e["a"][0]).get("id")) if isinstance(unwrap(e["a"][0]), dict) else None
+            if nm == "single_constant":
+                return (1, is_signed(e["a"][1]), None)
+            if nm == "two_constants":
+                return (2, is_signed(e["a"][1]), is_signed(e["a"][2]))
+        if isinstance(e, dict) and e.get("k") == "call" and e.get("f", "").startswith("(anonymous namespace)::select<"):
+            a, b = e["a"]
+            sb = None
+            for y in walk_nolambda(b):
+                if y.get("k") == "call" and y.get("op") == "()" and isinstance(unwrap(y["a"][0]), dict) and \
+                   lambdas.get(unwrap(y["a"][0]).get("id")) == "signed_cst":
+                    sb = True
+            return ((0 if is_null_prod(a) else 1) + (0 if is_null_prod(b) else 1), None, sb)
+        raise Broken("unmodelled return shape in locexpr_op_values at %s" % (ret.get("l") if isinstance(ret, dict) else "?"))
+    handled = {}
+    default = None
+    for labels, stmts in switch_groups(sw[0]):
+        rets = [x for s in stmts for x in walk_nolambda(s) if x.get("k") == "return"]
+        if not rets:
+            raise Broken("case group without return in locexpr_op_values")
+        cl = classify(rets[-1]["e"])
+        for l in labels:
+            if l == "default":
+                default = cl
+                continue
+            lo = intval(l)
+            handled[lo] = cl
+    # GNU case ranges: `case A ... B` : the reduced AST keeps lo/hi on the CFG side; re-read them here
+    for x in walk_nolambda(sw[0]["body"]):
+        if x.get("k") == "case" and x.get("hi") is not None:
+            lo, hi = intval(x["lo"]), intval(x["hi"])
+            for v in range(lo, hi + 1):
+                handled.setdefault(v, handled.get(lo))
+    if default is None or default[0] != 0:
+        raise Broken("default of locexpr_op_values is no longer the null producer")
+    ops = dw_op_enum(prog)
+    n = 0
+    for name, val in sorted(ops.items(), key=lambda kv: kv[1]):
+        if name in OP_NO_SUMMARY:
+            continue
+        exp = OP_TABLE.get(name)
+        if exp is None:
+            raise Broken("system dwarf.h defines %s, for which the checker has no operand-table row" % name)
+        got = handled.get(val, default)
+        n += 1
+        key = "X1:" + name
+        if exp[0] == 0 and got[0] == 0:
+            inst.append((key, {"operands": 0}))
+            continue
+        ok = got[0] == exp[0]
+        sign_ok = True
+        if ok and exp[1] is not None and got[1] is not None and exp[1] != got[1]:
+            sign_ok = False
+        if ok and exp[2] is not None and got[2] is not None and bool(exp[2]) != bool(got[2]):
+            sign_ok = False
+        inst.append((key, {"expected": exp, "decoded": got}))
+        if not ok:
+            findings.append({"key": key, "where": "libzwerg/atval.cc:%s" % f["l"].split(":")[-1],
+                             "msg": "%s (0x%x) has %d operand value(s) per the DWARF 5 operand table but `value` on it yields %d%s" % (
+                                 name, val, exp[0], got[0], " (falls into the default: no operands)" if val not in handled else ""),
+                             "detail": None})
+        elif not sign_ok:
+            findings.append({"key": key, "where": "libzwerg/atval.cc:%s" % f["l"].split(":")[-1],
+                             "msg": "%s decodes an operand with the wrong signedness (expected signed=%s/%s, decoded %s/%s)" % (name, exp[1], exp[2], got[1], got[2]),
+                             "detail": None})
+    if n < 150:
+        raise Broken("fewer DW_OP enumerators than expected (%d)" % n)
+    return inst, findings
+
+
+def x2(prog):
+    """?OP_x on a location list element scans all operations"""
+    inst, findings = [], []
+    fs = [f for f in prog.funcs.values() if "pred_op_loclist_elem" in f["q"] and f["n"] == "result"]
+    if len(fs) != 1:
+        raise Broken("anchor pred_op_loclist_elem::result vanished")
+    f = fs[0]
+    loops = [x for x in walk(f["body"]) if x.get("k") == "for"]
+    ok = False
+    narrowed = None
+    for lp in loops:
+        c = unwrap(lp.get("c"))
+        init0 = any(isinstance(v.get("init"), dict) and intval(v["init"]) == 0 for y in walk(lp.get("init")) if y.get("k") == "decl" for v in y["vars"])
+        plain = isinstance(c, dict) and c.get("op") == "<" and any(y.get("fn") == "get_exprlen" for y in walk(c) if y.get("k") == "call")
+        mentions = isinstance(c, dict) and any(y.get("fn") == "get_exprlen" for y in walk(c) if y.get("k") == "call")
+        cmp_atom = any(y.get("k") == "mem" and y["n"] == "atom" for y in walk(lp["body"]))
+        step1 = isinstance(unwrap(lp.get("inc")), dict) and unwrap(lp["inc"]).get("op") == "++"
+        if init0 and plain and cmp_atom and step1:
+            ok = True
+        elif cmp_atom and (not init0 or not step1 or (mentions and not plain)):
+            narrowed = short(c)
+    if not ok and narrowed is None:
+        raise Broken("pred_op_loclist_elem::result no longer scans with a recognisable for loop (unmodelled shape)")
+    inst.append(("X2:pred_op_loclist_elem", {"scans_all_ops": ok}))
+    if not ok:
+        findings.append({"key": "X2:pred_op_loclist_elem", "where": f["l"], "msg": "?OP_x on a location-list element does not scan every operation [0, exprlen): loop condition `%s`" % narrowed, "detail": None})
+    return inst, findings
